@@ -493,6 +493,8 @@ theorem startInstant_sim (a : Actor) (s : St) (supOk : Bool) (hl : Live a s) (hp
   unfold startInstant
   have hnf : a.phase ≠ .fresh := by simp [hph]
   have hnp : ∀ r, a.phase ≠ .postStop r := by simp [hph]
+  split
+  · exact failSpawn_sim _ _ _
   · simp only []
     split
     · split
